@@ -443,6 +443,12 @@ fn table_case(p: &str, i: usize, c: &Tr) -> Report {
 /// forms whose printed text always spans several lines
 const BLOCK_LIKE: [&str; 10] = ["comatch", "data", "codata", "block", "match", "param", "do", "let", "def", "lett"];
 
+/// the largest number of parentheses around any node
+fn paren_depth(t: &Tr) -> usize {
+    let below = t.kids.iter().map(paren_depth).max().unwrap_or(0);
+    if t.name == "paren" { below + 1 } else { below }
+}
+
 fn gen_tree(rng: &mut Rng, depth: u32, flat: bool) -> Tr {
     let candidates: Vec<&(&str, &str, u8)> =
         PRODS.iter().filter(|p| (depth > 0 || arity(p.1) == 0) && p.0 != "paren" && !(flat && BLOCK_LIKE.contains(&p.0))).collect();
@@ -545,7 +551,10 @@ pub fn stream(opts: &Opts, sink: &mut Sink) -> bool {
         let depth = 2 + ((made / 2) % 4) as u32;
         // every other tree without the forms that always break the line
         let t = gen_tree(&mut rng, depth, made % 2 == 1);
-        if t.size() > 40 || !seen.insert(t.show()) {
+        // the printer renders the content of a group once per layout alternative, so its time is
+        // exponential in the depth of nested groups (a known finding of C12 with its own input):
+        // this stream stays below the depth where that shows
+        if t.size() > 40 || paren_depth(&t) > 5 || !seen.insert(t.show()) {
             continue;
         }
         made += 1;
